@@ -14,13 +14,14 @@ MANIFEST = {
             'over the CFG, index-identity rule for copy-with-removal; must-follow rule on every re-binding of the flow container (per-phase views dropped or '
             're-attached); block-transfer alignment rule; memo-owner rule',
     'text': 'Decides for every input: split_to stores mol*split and an expression that normalises to mol-mol*split (same-package and CAS-remapped stores); every '
-            'scaling operator multiplies the whole molar data exactly once (on a copy for the binary forms); in both indexer mix_from implementations each inlet is '
-            'appended exactly once to exactly one accumulator family chosen by the package test, as flow data, and each accumulator is consumed once; containers '
-            'are cleared only under an identity test against the operands; no local alias of phase/data containers is used after a call that re-binds them; '
-            'copy-with-removal zeroes the same index it copied; separate_out subtracts exactly the operand (both indexer classes); whenever a stream re-binds its '
-            'flow container the remembered per-phase sub-streams, through which flow is moved with copy_flow/split_to, are dropped or re-attached. Blocks of rows '
-            'move between multi-phase streams only between equal phase tuples or after the source rows were lined up by label (copy_like, copy_flow); the '
-            'index_overlap memo is kept on the package whose table its positions come from. Numerical equality and run-time CAS tables are not decided.',
+            'scaling operator multiplies the whole molar data exactly once (on a copy for the binary forms); in both indexer mix_from implementations each inlet is'
+            ' appended exactly once to exactly one accumulator family chosen by the package test, as flow data, and each accumulator is consumed once; containers '
+            'are cleared only under an identity test against the operands; no local alias of phase/data containers is used after a call that re-binds them; copy-'
+            "with-removal zeroes the same index it copied; separate_out subtracts exactly the operand (both indexer classes; across packages the operand's "
+            "positions are turned into CAS numbers through the operand's own table); whenever a stream re-binds its flow container the remembered per-phase sub-"
+            'streams, through which flow is moved with copy_flow/split_to, are dropped or re-attached. Blocks of rows move between multi-phase streams only between'
+            ' equal phase tuples or after the source rows were lined up by label (copy_like, copy_flow); the index_overlap memo is kept on the package whose table '
+            'its positions come from. Numerical equality and run-time CAS tables are not decided.',
 }
 
 ST = 'thermosteam/_stream.py'
